@@ -32,6 +32,7 @@ import (
 	"hash/fnv"
 	"log"
 	"os"
+	"os/exec"
 	"path/filepath"
 	"regexp"
 	"runtime"
@@ -61,7 +62,14 @@ type seed struct {
 	pre  string
 	toks []string
 	gaps []string // gaps[i] follows toks[i]
+	// locals are the distinct identifier tokens of the seed itself (seeds < localMaxTokens tokens): a
+	// token is also replaced by each of them, which rewires references (e.g. a named set to itself).
+	locals []string
 }
+
+const localMaxTokens = 150
+
+var identTokRE = regexp.MustCompile(`^([A-Za-z_][A-Za-z0-9_-]*|'([^'\\\n]|\\.)+')$`)
 
 const maxTemplateStub = 80
 
@@ -102,6 +110,18 @@ func newSeed(name, text string) *seed {
 			end = spans[i+1].s
 		}
 		s.gaps = append(s.gaps, text[sp.e:end])
+	}
+	if len(s.toks) < localMaxTokens {
+		seen := map[string]bool{}
+		for _, r := range replacements {
+			seen[r] = true
+		}
+		for _, t := range s.toks {
+			if identTokRE.MatchString(t) && !seen[t] {
+				seen[t] = true
+				s.locals = append(s.locals, t)
+			}
+		}
 	}
 	return s
 }
@@ -179,14 +199,18 @@ func (e edit) span() int {
 }
 
 func (e edit) String() string {
+	if e.Op == 'l' {
+		return fmt.Sprintf("l%d:#%d", e.Pos, e.Rep)
+	}
 	if e.Op == 'r' {
 		return fmt.Sprintf("r%d:%s", e.Pos, replacements[e.Rep])
 	}
 	return fmt.Sprintf("%c%d", e.Op, e.Pos)
 }
 
-// edits enumerates the 1-token deviations of s at positions >= from, skipping no-ops.
-func (s *seed) edits(from int, f func(e edit) bool) bool {
+// edits enumerates the 1-token deviations of s at positions >= from, skipping no-ops. withLocals adds
+// the replacements by the seed's own identifier tokens (op 'l').
+func (s *seed) edits(from int, withLocals bool, f func(e edit) bool) bool {
 	for p := from; p < len(s.toks); p++ {
 		if !f(edit{Op: 'd', Pos: p}) || !f(edit{Op: 'u', Pos: p}) {
 			return false
@@ -202,6 +226,16 @@ func (s *seed) edits(from int, f func(e edit) bool) bool {
 			}
 			if !f(edit{Op: 'r', Pos: p, Rep: r}) {
 				return false
+			}
+		}
+		if withLocals {
+			for r, rep := range s.locals {
+				if rep == s.toks[p] {
+					continue
+				}
+				if !f(edit{Op: 'l', Pos: p, Rep: r}) {
+					return false
+				}
 			}
 		}
 	}
@@ -221,6 +255,8 @@ func (s *seed) apply(es []edit) string {
 				return s.toks[i] + " " + s.toks[i]
 			case e.Pos == i && e.Op == 'r':
 				return replacements[e.Rep]
+			case e.Pos == i && e.Op == 'l':
+				return s.locals[e.Rep]
 			case e.Pos == i && e.Op == 's':
 				return s.toks[i+1]
 			case e.Pos+1 == i && e.Op == 's':
@@ -258,6 +294,10 @@ func (c *caseRef) Desc() string {
 	}
 	var parts []string
 	for _, e := range c.es {
+		if e.Op == 'l' {
+			parts = append(parts, fmt.Sprintf("l%d:%s", e.Pos, c.s.locals[e.Rep]))
+			continue
+		}
 		parts = append(parts, e.String())
 	}
 	return fmt.Sprintf("seed %s [%s]", c.s.Name, strings.Join(parts, " "))
@@ -310,7 +350,7 @@ func enumerate(seeds []*seed, quick bool, visit func(idx int, c *caseRef) bool) 
 	for _, s := range seeds {
 		big := quick && len(s.toks) > quickBigSeed
 		es := make([]edit, 1)
-		if !s.edits(0, func(e edit) bool {
+		if !s.edits(0, true, func(e edit) bool {
 			if big && e.Op == 'r' && !quickBigReps[replacements[e.Rep]] {
 				return true
 			}
@@ -329,9 +369,9 @@ func enumerate(seeds []*seed, quick bool, visit func(idx int, c *caseRef) bool) 
 			continue
 		}
 		es := make([]edit, 2)
-		if !s.edits(0, func(e1 edit) bool {
+		if !s.edits(0, false, func(e1 edit) bool {
 			es[0] = e1
-			return s.edits(e1.Pos+e1.span(), func(e2 edit) bool {
+			return s.edits(e1.Pos+e1.span(), false, func(e2 edit) bool {
 				es[1] = e2
 				return emit(&caseRef{phase: 3, s: s, es: es})
 			})
@@ -685,7 +725,7 @@ func textHash(text string, parsed bool) uint64 {
 const statsBatch = 256
 
 func worker(w *core.Worker) {
-	debug.SetMaxStack(64 << 20) // a runaway recursion dies quickly instead of eating 1 GB per worker
+	debug.SetMaxStack(16 << 20) // a runaway recursion dies quickly instead of eating 1 GB per worker
 	installHook()
 	if len(w.Args) >= 2 && w.Args[0] == "file" {
 		data, err := os.ReadFile(w.Args[1])
@@ -782,33 +822,102 @@ type replayCase struct {
 // GC avoid 16 processes x 16 GC threads fighting for 16 cores (2.5x faster overall).
 var workerEnv = []string{"GOMAXPROCS=1", "GOGC=400"}
 
-func deathKey(how, tail string) string {
+// diagnoseDeath re-runs a case that kills the worker once more in a subprocess of its own with the
+// complete stderr captured (the shard protocol keeps only the last 4 KB, which for a Go fatal error
+// is the tail of the dump of all goroutines, not the crash site) and derives a stable key from it:
+// death:<class>:<site>, where site is the function the crash happened in (for a stack overflow: the
+// most frequent textmapper function among the innermost frames, i.e. the recursion).
+func diagnoseDeath(text, how, tail string) (key, excerpt string) {
+	stderr := tail
+	if dir, err := os.MkdirTemp("", "c22-death"); err == nil {
+		defer os.RemoveAll(dir)
+		p := filepath.Join(dir, "case.tm")
+		if os.WriteFile(p, []byte(text), 0o644) == nil {
+			ctx, cancel := context.WithTimeout(context.Background(), 90*time.Second)
+			defer cancel()
+			cmd := exec.CommandContext(ctx, os.Args[0], "worker", "quick", "0", "1", "0", "-1", "file", p)
+			cmd.Env = append(os.Environ(), workerEnv...)
+			var buf cappedBuf
+			cmd.Stderr = &buf
+			if cmd.Run() != nil && len(buf.data) > 0 {
+				stderr = string(buf.data)
+			}
+		}
+	}
 	class := "crash"
 	switch {
 	case strings.Contains(how, "no progress"):
 		class = "hang"
+	case strings.Contains(stderr, "stack overflow") || strings.Contains(stderr, "stack exceeds"):
+		class = "stack-overflow"
 	case strings.Contains(how, "exit status 1"), strings.Contains(how, "exited 0"):
 		class = "exit"
-	case strings.Contains(tail, "stack overflow") || strings.Contains(tail, "stack exceeds"):
-		class = "stack-overflow"
 	}
-	site := stackSite(tail)
+	// the crashing goroutine is dumped first; look at its innermost frames only
+	head := stderr
+	if i := strings.Index(head, "\ngoroutine "); i >= 0 {
+		head = head[i+1:]
+		if j := strings.Index(head, "\n\ngoroutine "); j >= 0 {
+			head = head[:j]
+		}
+	}
+	site := ""
+	if class == "stack-overflow" {
+		count := map[string]int{}
+		var order []string
+		for _, l := range strings.Split(head, "\n") {
+			if strings.HasPrefix(l, "\t") || !strings.Contains(l, "inspirer/textmapper/") {
+				continue
+			}
+			if fn := stackSite(l); fn != "" {
+				if count[fn] == 0 {
+					order = append(order, fn)
+				}
+				count[fn]++
+			}
+			if strings.Contains(l, "frames elided") {
+				break
+			}
+		}
+		for _, fn := range order {
+			if site == "" || count[fn] > count[site] {
+				site = fn
+			}
+		}
+	} else {
+		site = stackSite(head)
+	}
 	if site == "" {
 		// no stack (plain os.Exit / log.Fatal with the hook disabled): use the last message line
-		lines := strings.Split(strings.TrimSpace(tail), "\n")
+		lines := strings.Split(strings.TrimSpace(stderr), "\n")
 		site = msgClass(lines[len(lines)-1])
 		if site == "" {
 			site = "unknown"
 		}
 	}
-	return "death:" + class + ":" + site
+	if len(head) > 2500 {
+		head = head[:2500]
+	}
+	return "death:" + class + ":" + site, head
+}
+
+type cappedBuf struct{ data []byte }
+
+func (b *cappedBuf) Write(p []byte) (int, error) {
+	if room := 1<<20 - len(b.data); room > 0 {
+		if len(p) < room {
+			room = len(p)
+		}
+		b.data = append(b.data, p[:room]...)
+	}
+	return len(p), nil
 }
 
 func run(c *core.Ctx) {
 	seeds := loadSeeds()
 	quick := c.Quick()
 	c.Rule("seed grammars x {0, 1 (thorough: 2 for seeds < 60 tokens)} token deviations (delete, duplicate, swap-with-next, replace by one of " +
-		strconv.Itoa(len(replacements)) + " tm tokens; no-op edits skipped; quick: seeds > " + strconv.Itoa(quickBigSeed) + " tokens use only the replacement tokens ; ( a) + all byte strings <= 3 over 18 bytes in 7 contexts; " +
+		strconv.Itoa(len(replacements)) + " tm tokens; no-op edits skipped; with exactly one deviation in seeds < " + strconv.Itoa(localMaxTokens) + " tokens also replace by each identifier token of the same seed; quick: seeds > " + strconv.Itoa(quickBigSeed) + " tokens use only the replacement tokens ; ( a) + all byte strings <= 3 over 18 bytes in 7 contexts; " +
 		"every case through compiler.Compile (CheckOnly off; also on when the text mentions optimizeTables). " +
 		"Non-trivial = the text passes the tm parser, i.e. reaches the semantic phases; distinct by FNV-64 of the text")
 	c.Assume("log.Fatal* is observed by a log output hook that panics with the caller's identity (the process would exit right after writing the message); everything else that kills or stalls a worker is detected by the shard protocol (45 s without progress on a single case = hang)")
@@ -944,10 +1053,8 @@ func run(c *core.Ctx) {
 			c.Eval(1)
 			c.Outcome("death", 1)
 			c.Add("stats_lost_upper_bound", statsBatch)
-			if len(tail) > 2500 {
-				tail = tail[len(tail)-2500:]
-			}
-			addViolation(idx, deathKey(how, tail), fmt.Sprintf("worker died (%s) while compiling case %d (%s); stderr tail:\n%s", how, idx, d, tail), replayCase{Desc: d, Text: text})
+			key, excerpt := diagnoseDeath(text, how, tail)
+			addViolation(idx, key, fmt.Sprintf("worker died (%s) while compiling case %d (%s); stderr:\n%s", how, idx, d, excerpt), replayCase{Desc: d, Text: text})
 		},
 	})
 	var keys []string
@@ -1029,7 +1136,8 @@ func replay(c *core.Ctx, raw json.RawMessage) error {
 			}
 		},
 		OnDeath: func(idx int, desc, how, tail string) {
-			fails = append(fails, deathKey(how, tail)+": worker died ("+how+")")
+			key, excerpt := diagnoseDeath(r.Text, how, tail)
+			fails = append(fails, key+": worker died ("+how+")\n"+excerpt)
 		},
 	})
 	if len(fails) > 0 {
